@@ -1,6 +1,7 @@
 package main
 
 import (
+	"go/types"
 	"encoding/json"
 	"fmt"
 	"os"
@@ -136,6 +137,19 @@ func runCheck(id, tier string, seed int64) int {
 		for _, c := range spec.Covers {
 			if res.Covers[c] == 0 {
 				inconclusive = append(inconclusive, "cover label not reached: "+c)
+			}
+		}
+		if spec.RPCCoverage {
+			// every Msg RPC found in the type information of the current source must have been driven by the harness
+			rpcs := msgRPCs(ld)
+			fmt.Printf("   Msg RPCs enumerated from the current source: %v\n", rpcs)
+			if len(rpcs) == 0 {
+				inconclusive = append(inconclusive, "no MsgServer interface found in the source")
+			}
+			for _, rpc := range rpcs {
+				if res.Covers["rpc:"+rpc] == 0 {
+					inconclusive = append(inconclusive, "Msg RPC without a harness case (add it to "+spec.Name+"): "+rpc)
+				}
 			}
 		}
 		if len(res.Unconfirmed) > 0 {
@@ -357,5 +371,30 @@ func dedupe(in []string) []string {
 			out = append(out, s)
 		}
 	}
+	return out
+}
+
+// msgRPCs enumerates "<component>.<Method>" for every method of every interface named MsgServer declared in an
+// orbiter package (from the type information of the current source, so new RPCs are seen).
+func msgRPCs(ld *Loaded) []string {
+	var out []string
+	for _, p := range ld.pkgs {
+		if p == nil || !isOrbPkg(p.Pkg.Path()) || strings.Contains(p.Pkg.Path(), "/zzverif/") {
+			continue
+		}
+		obj := p.Pkg.Scope().Lookup("MsgServer")
+		if obj == nil {
+			continue
+		}
+		it, ok := obj.Type().Underlying().(*types.Interface)
+		if !ok {
+			continue
+		}
+		comp := p.Pkg.Path()[strings.LastIndex(p.Pkg.Path(), "/")+1:]
+		for i := 0; i < it.NumMethods(); i++ {
+			out = append(out, comp+"."+it.Method(i).Name())
+		}
+	}
+	sort.Strings(out)
 	return out
 }
